@@ -19,13 +19,17 @@
     `topo` is a parent of an earlier one (Y0/Spec/TianSpec.lean).
   * `ProbShape q T`: when the given expression is a `Probability` it is `P_w(T | Z)` — see
     Y0/Spec/TianSpec.lean for why the Lemma-1 branch (which dispatches on the TYPE of the expression and never reads
-    its children) needs that; every other constructor carries no condition.
+    its children) needs that; every other constructor carries no condition.  `ProbShapeIn G q T` is the weaker
+    form that constrains only the occurrences of the members of `T`.  Neither is needed when the hypothesis "q denotes
+    Q[T]" is made for every compatible model: `tian_sound_semantic` (section 1c) has no syntactic hypothesis.
   * The preconditions "C ⊆ T", "T ⊆ topo", "G[T] is a single district" are CHECKED by the routine itself (it raises
     otherwise), so `tian_sound` does not need them as hypotheses: every expression it returns is right.
 -/
 import Y0.Lemmas.TianTotal
 import Y0.Lemmas.TianCallers
 import Y0.Lemmas.IdRank
+import Y0.Lemmas.TianSemSound
+import Y0.Lemmas.TianSemSep
 
 namespace Y0
 open Tian TianSpec
@@ -161,28 +165,55 @@ theorem tian_sound_ctftr_caller (M : Scm) (d : CtfTr.Domain) (hM : M.Compatible 
     (fun t ht => hregn t (hreg t (hBt t ht))) q
     (cfactor_output_shape d.graph d.topo _ B d.pop q hsub hDH hBnd hshape hcf) σ' hqB e hid
 
--- OPEN: `tian_sound` with NO syntactic hypothesis on a bare `Probability`, the semantic hypothesis quantified over
--- all models instead:
---   theorem tian_sound_semantic (G) (hG : G.WF) (hrank : G.Ranked) (topo) (htnd) (hord) (C T) (hCnd) (hTnd) (hT)
---       (q : Expr) (σ' : Val)
---       (hq : ∀ M : Scm, M.Compatible G → ∀ σ, den (M.env G) σ' q σ = M.Q T σ)
---       (e : Expr) (h : identify G C T q topo = .ok (some e)) :
---       ∀ M : Scm, M.Compatible G → ∀ σ, den (M.env G) σ' e σ = M.Q C σ
--- Status.  (1) `ProbShape` was weakened to what the proofs use: redundant children `P(T, W | Z)`, `W ⊆ Z ∪ w`, are
--- allowed, parents and intervened variables need not be nodes of the graph, the spelling `-X` of a variable in event
--- position is allowed (only `+X`, which reads the other assignment σ', is excluded).  (2) Every Q[T] that y0 itself produces
--- satisfies it (section 1b), and IDENTIFY re-establishes it at every level of its recursion.  (3) No counterexample to
--- the semantic statement is known, and the harness searches for one on every run: generator `semP` (harness/props/c17.py)
--- enumerates EVERY single-world probability `P_w(T ∪ E | Z)` over small graphs, keeps those that denote Q[T] on the
--- random models and checks the result of IDENTIFY by exact evaluation (none failed).  We believe the statement is true
--- for `M.env G`: a conjunction across worlds has value 0 there (Y0/Spec/Scm.lean `prAtoms`) and Q[T] > 0, so q lives
--- in one world w; comparing with the fair-coin model and with a model biased at one t ∈ T forces
--- "child names ∖ (parent names ∪ w) = T" and no `+t` child, which is `ProbShape` up to starred parents / redundant
--- starred children (`P(T | +z)`, harmless when it denotes Q[T] at all).  Mechanising those separating models
--- (a compatible `Scm` for an arbitrary `G` with prescribed kernels, its `prDo` in closed form) and allowing `+z`
--- outside `T` in `TianLemma1` is the remaining work.  A single-model hypothesis can never suffice: in a uniform model
--- unrelated probabilities coincide with Q[T], and the Lemma-1 branch does not read the children outside `T`.
--- `Sum` / `Product` / `Fraction` inputs are covered by `tian_sound` without any shape hypothesis.
+/-! ## 1c. no syntactic hypothesis: the semantic version -/
+
+/-- **`tian_sound` under the weaker shape** `ProbShapeIn` (Y0/Spec/TianSpec.lean), which constrains only how the
+members of `T` occur in a bare `Probability`: each is an un-starred child, none is a parent or intervened on; all
+variables carry the same subscripts `w`; a further child is a parent, intervened on, or not a node.  Starred
+subscripts (`+X`), starred parents and starred redundant children are allowed — that the probability denotes `Q[T]`
+in the model at hand is the hypothesis `hq`, as before.  (`ProbShape q T → ProbShapeIn G q T`.) -/
+theorem tian_sound_in (M : Scm) (G : MG Name) (hM : M.Compatible G) (hG : G.WF) (hrank : G.Ranked)
+    (topo : List Name) (htnd : topo.Nodup) (hord : TopoOrdered G topo)
+    (C T : List Name) (hCnd : C.Nodup) (hTnd : T.Nodup) (hT : ∀ t ∈ T, t ∈ G.nodes)
+    (q : Expr) (hshape : ProbShapeIn G q T) (σ' : Val)
+    (hq : ∀ σ, den (M.env G) σ' q σ = M.Q T σ)
+    (e : Expr) (h : identify G C T q topo = .ok (some e)) :
+    ∀ σ, den (M.env G) σ' e σ = M.Q C σ := by
+  obtain ⟨hCT, hTt, _⟩ := tian_checks G C T topo q _ h
+  have hpT : (topo.filter (· ∈ T)).Perm T := TianGraph.filter_perm_of_nodup hTnd htnd hTt
+  have hpC : (topo.filter (· ∈ C)).Perm C :=
+    TianGraph.filter_perm_of_nodup hCnd htnd (fun c hc => hTt c (hCT c hc))
+  intro σ
+  rw [← Scm.Q_perm M hpC]
+  exact TianSem.identifyAux_sound hM hG hrank σ' topo htnd hord C _ T q hT
+    (TianSem.probShapeIn_congr hpT.symm hshape) (fun τ => by rw [hq τ, Scm.Q_perm M hpT]) e h σ
+
+/-- **The shape is forced by the meaning.**  If a bare `Probability` denotes `Q[T]` in EVERY positive model compatible
+with `G` (at one fixed reading `σ'` of the starred values, every `σ`), then it has the shape `ProbShapeIn`.
+Separating models: independent fair coins and the same with one coin biased (Y0/Lemmas/TianSemSep.lean); a
+conjunction across worlds, or one that gives a variable two values, has probability 0 in `M.env G` while `Q[T] > 0`. -/
+theorem tian_semantic_shape (G : MG Name) (hG : G.WF) (T : List Name) (hTnd : T.Nodup)
+    (hT : ∀ t ∈ T, t ∈ G.nodes) (q : Expr) (σ' : Val)
+    (hq : ∀ M : Scm, M.Compatible G → ∀ σ, den (M.env G) σ' q σ = M.Q T σ) : ProbShapeIn G q T := by
+  cases q with
+  | prob pop ch pa => exact TianSem.probShapeIn_of_semantic hG hTnd hT pop ch pa σ' hq
+  | _ => trivial
+
+/-- **C17, main clause, with NO syntactic hypothesis.**  For every acyclic graph `G`, every topological listing, every
+`C`, `T` and every expression `q` — a bare `Probability` included — that denotes `Q[T]` in every positive
+semi-Markovian model compatible with `G`: whatever expression `identify_district_variables` returns denotes `Q[C]` in
+every such model, at every value assignment.  (A single-model hypothesis cannot suffice for a bare `Probability`: in a
+uniform model unrelated probabilities coincide with `Q[T]`, and the Lemma-1 branch never reads the children outside
+`T`; for `Sum` / `Product` / `Fraction` inputs `tian_sound` needs one model only.) -/
+theorem tian_sound_semantic (G : MG Name) (hG : G.WF) (hrank : G.Ranked)
+    (topo : List Name) (htnd : topo.Nodup) (hord : TopoOrdered G topo)
+    (C T : List Name) (hCnd : C.Nodup) (hTnd : T.Nodup) (hT : ∀ t ∈ T, t ∈ G.nodes)
+    (q : Expr) (σ' : Val)
+    (hq : ∀ M : Scm, M.Compatible G → ∀ σ, den (M.env G) σ' q σ = M.Q T σ)
+    (e : Expr) (h : identify G C T q topo = .ok (some e)) :
+    ∀ M : Scm, M.Compatible G → ∀ σ, den (M.env G) σ' e σ = M.Q C σ := fun M hM =>
+  tian_sound_in M G hM hG hrank topo htnd hord C T hCnd hTnd hT q
+    (tian_semantic_shape G hG T hTnd hT q σ' hq) σ' (hq M hM) e h
 
 /-! ## 2. the c-factor routines -/
 
@@ -219,6 +250,31 @@ theorem cfactor_sound (M : Scm) (G : MG Name) (hM : M.Compatible G) (hG : G.WF) 
     (hq : ∀ σ, den (M.env G) σ' q σ = M.Q (topo.filter (· ∈ S)) σ)
     (h : computeCFactor D S q topo = .ok e) : ∀ σ, den (M.env G) σ' e σ = M.Q D σ :=
   TianSound.computeCFactor_sound hM hG hrank σ' topo S htnd hord hsub D hDnd hDH hclosed q e hshape hq h
+
+/-- **Lemma 1 (i) with NO syntactic hypothesis**: a probability that denotes `Q[H]` in every compatible positive
+model (see `tian_semantic_shape`) -/
+theorem cfactor_lemma1_sound_semantic (G : MG Name) (hG : G.WF) (hrank : G.Ranked)
+    (H : List Name) (hnd : H.Nodup) (hsub : ∀ v ∈ H, v ∈ G.nodes) (htopo : TopoOrdered G H)
+    (D : List Name) (hDnd : D.Nodup) (hDH : ∀ v ∈ D, v ∈ H) (hclosed : BiClosedIn G D H)
+    (pop : Option Var) (ch pa : List Var) (e : Expr) (σ' : Val)
+    (hq : ∀ M : Scm, M.Compatible G → ∀ σ, den (M.env G) σ' (.prob pop ch pa) σ = M.Q H σ)
+    (h : lemma1 D (.prob pop ch pa) H = .ok e) :
+    ∀ M : Scm, M.Compatible G → ∀ σ, den (M.env G) σ' e σ = M.Q D σ := fun M hM =>
+  TianSem.lemma1_sound hM hG hrank σ' H hnd hsub htopo D hDnd hDH hclosed pop ch pa e
+    (tian_semantic_shape G hG H hnd hsub _ σ' hq) (hq M hM) h
+
+/-- **`compute_c_factor` with NO syntactic hypothesis** -/
+theorem cfactor_sound_semantic (G : MG Name) (hG : G.WF) (hrank : G.Ranked)
+    (topo S : List Name) (htnd : topo.Nodup) (hord : TopoOrdered G topo)
+    (hsub : ∀ v ∈ topo.filter (· ∈ S), v ∈ G.nodes)
+    (D : List Name) (hDnd : D.Nodup) (hDH : ∀ v ∈ D, v ∈ topo.filter (· ∈ S))
+    (hclosed : BiClosedIn G D (topo.filter (· ∈ S)))
+    (q e : Expr) (σ' : Val)
+    (hq : ∀ M : Scm, M.Compatible G → ∀ σ, den (M.env G) σ' q σ = M.Q (topo.filter (· ∈ S)) σ)
+    (h : computeCFactor D S q topo = .ok e) :
+    ∀ M : Scm, M.Compatible G → ∀ σ, den (M.env G) σ' e σ = M.Q D σ := fun M hM =>
+  TianSem.computeCFactor_sound hM hG hrank σ' topo S htnd hord hsub D hDnd hDH hclosed q e
+    (tian_semantic_shape G hG _ (htnd.filter _) hsub q σ' hq) (hq M hM) h
 
 /-- **Lemma 3** (`compute_ancestral_set_q_value`): marginalising an expression for `Q[H]` over `H ∖ A` gives `Q[A]`
 when `A` is an ancestral set of `G[H]`. -/
@@ -286,6 +342,27 @@ example : ProbShape (.prob none [pl 1, pl 2, pl 3, pl 0] [pl 0]) [1, 2, 3] :=
 /-- … and IDENTIFY ignores them -/
 example : identify g [2] [1, 2, 3] (.prob none [pl 1, pl 2, pl 3, pl 0] [pl 0]) [0, 3, 1, 2]
     = .ok (some (.prob none [pl 2] [pl 0, pl 1])) := by rfl
+
+/-- the hypothesis of `tian_sound_semantic` is satisfiable: `P_z(A,B,D)` denotes `Q[{A,B,D}]` in EVERY model
+compatible with `g` (truncated factorisation) -/
+example (σ' : Val) : ∀ M : Scm, M.Compatible g → ∀ σ,
+    den (M.env g) σ' (.prob none [inZ 1, inZ 2, inZ 3] []) σ = M.Q [1, 2, 3] σ := by
+  intro M hM σ
+  rw [TianProb.den_prob_world hM (MG.wf_fromEdges _ _ _) σ σ' [⟨0, false⟩] (by decide) none _ _ (by simp)
+    (by unfold TianProb.InWorld; decide)]
+  simp only [↓reduceIte, div_one]
+  rfl
+
+/-- `+X` (a starred variable) -/
+def st (n : Name) : Var := { name := n, star := some true }
+
+/-- the weaker shape of `tian_sound_in` admits starred parents and non-nodes: `P(A, B, D | Z, +X9)` -/
+example : ProbShapeIn g (.prob none [pl 1, pl 2, pl 3] [pl 0, st 9]) [1, 2, 3] :=
+  ⟨[], by decide, by decide, by decide, by decide, by decide, by decide⟩
+
+/-- … IDENTIFY carries them along -/
+example : identify g [2] [1, 2, 3] (.prob none [pl 1, pl 2, pl 3] [pl 0, st 9]) [0, 3, 1, 2]
+    = .ok (some (.prob none [pl 2] [pl 0, pl 1, st 9])) := by rfl
 
 /-- the order used above is topological for `g` -/
 example : TopoOrdered g [0, 3, 1, 2] := by
